@@ -12,7 +12,7 @@ TLA+ machine (C->S, see c02_codegen) when available.
 import itertools
 import random
 
-from .. import dag, exprs
+from .. import dag, exprs, tlc, codegen
 
 LEVEL = 'model_checking'
 
@@ -77,6 +77,25 @@ def replay_one(item):
         func = (tuple(roots[:-1]), roots[-1], roots[0])
         struct = (tuple(outs_pos[:-1]), outs_pos[-1], outs_pos[0])
     has_loop = any(n['op'] in ('LoopSum', 'LoopConcat') for n in nodes)
+    # C->S pre-pass: record the executed statements of the generated script (first run and rerun) for three configurations
+    for kw in (dict(_simplify=True, _optimize=True, cache_const_intermediates=True), dict(_simplify=False, _optimize=True, cache_const_intermediates=False),
+               dict(_simplify=True, _optimize=False, cache_const_intermediates=True)):
+        try:
+            with treelog.set(treelog.NullLog()), codegen.capture() as rec:
+                f = exprs.with_timeout(30, ev.compile, func, stats=False, **kw)
+            if len(rec.scripts) != 1:
+                continue
+            script = rec.scripts[0][0]
+            for ncall, e in enumerate((0, 1)):
+                with numpy.errstate(all='ignore'):
+                    _, lines = exprs.with_timeout(30, codegen.trace_call, f, dag.env_arrays(dag.ENVS[e]))
+                evs = codegen.events(script, lines)
+                if len(evs) <= 400:
+                    res.setdefault('traces', []).append(dict(cfg=cfgname(dict(kw, stats=False, maxprocs=1)), call=ncall, nvars=max(1, len(script.varid)),
+                        predefined=sorted(set([i for v, i in script.varid.items() if v.startswith('c')] + (script.globals if ncall else []))), events=evs,
+                        text={str(d['ln']): d['text'][:120] + ' # ' + d['cls'] for d in script.info.values()}))
+        except Exception:
+            pass   # failures to compile/evaluate are judged by the value pass below
     for c in configs(tier, has_loop, par):
         name = cfgname(c)
         kw = dict(c)
@@ -181,6 +200,33 @@ def run(rep):
         else:
             rep.skip('model value undefined at all environments')
     rep.extra['compiled_configurations'] = nconf
+    # C->S: executed statements of the generated scripts validated against the TraceCodeGen machine
+    traces, owners = [], []
+    for it, o in zip(items, outs):
+        for t in o.get('traces', []):
+            traces.append(dict(nvars=t['nvars'], predefined=t['predefined'], events=t['events']))
+            owners.append((it[0], t))
+    if traces:
+        import json, os
+        wd = tlc.workdir('c02-codegen-traces')
+        path = os.path.join(wd, 'traces.json')
+        with open(path, 'w') as fh:
+            json.dump(traces, fh)
+        tres = tlc.run('TraceCodeGen', 'TraceCodeGen.cfg', tag='c02-tracecodegen', workers=1, env=dict(VF_TRACE=path), deadlock=False, timeout=1800)
+        rep.add_tlc(tres)
+        rejected = {e['tid']: e for e in tres.emitted}
+        for tid, e in rejected.items():
+            p, t = owners[tid - 1]
+            evn = t['events'][e['matched']] if e['matched'] < len(t['events']) else None
+            stmt = t['text'].get(str(evn['ln']), '?') if evn else '?'
+            cls = stmt.rsplit('# ', 1)[-1] if evn else '?'
+            rep.violation('codegen:{}:{}:{}'.format(e['clause'], evn['k'] if evn else '?', cls),
+                          'generated script ({}, call {}) violates machine clause "{}" at statement `{}`'.format(t['cfg'], t['call'], e['clause'], stmt),
+                          dict(program=p, cfg=t['cfg'], statement=stmt, event=evn))
+        rep.traces += len(traces) - len(rejected)
+        rep.extra['script_traces_validated'] = len(traces)
+        rep.extra['script_statements_validated'] = sum(len(t['events']) for t in traces)
+    rep.lap('script traces validated')
     for it in items[:3]:
         rep.sample(dict(program=[[n['op'], n['d'], n['p'], n['sh'], n['dt']] for n in it[0]], outputs=it[1], structure=it[2]))
     rep.rule = ('cases = (program, output tuple structure) pairs from the ExprBuilder TLA+ machine, each compiled under 10-14 compile '
